@@ -89,7 +89,10 @@ THEOREMS = {
     "C19": _gt("errEnum_eq") + [("Eav.Props.C19", "Eav.Props.C19." + n) for n in
             ("idn_failure_rejected", "idn_failure_verdict", "idn_failure_contained")] + [("Eav.Props.C13", "Eav.Props.C13.isEmail_outcome")],
     "C20": _gt("init_values") + [("Eav.Props.C20", "Eav.Props.C20." + n) for n in
-            ("getlines_flatten", "getlinesAux_records", "sanitize_clean", "echo_unchanged", "trim_plain", "verdicts_le_lines", "getlinesAux_append_lf", "cliLines_append_lf")],
+            ("getlines_flatten", "getlinesAux_records", "sanitize_clean", "echo_unchanged", "trim_plain", "verdicts_le_lines", "getlinesAux_append_lf", "cliLines_append_lf")] +
+           [("Eav.Props.C20Main", "Eav.Props.C20." + n) for n in
+            ("step_isEmail_spec", "parseLines_spec", "specLines_blocks", "parseFiles_spec", "tool_setup", "cliMain_files", "cliMain_ok", "trimLine_none_iff", "verdict_count")] +
+           [("Eav.Props.C13", "Eav.Props.C13.isEmail_outcome"), ("Eav.Props.C13", "Eav.Props.C13.free_releases"), ("Eav.Props.C06", "Eav.Props.C06.step_isEmail_ok")],
 }
 
 TRUSTED = [
@@ -2284,6 +2287,94 @@ def spec_trim(rec):
     return rec
 
 
+def recorded_convs(ctx, name, variant, ops):
+    """what the IDN library answered during each op of the stream just run: the ` @ rc out` records the harness appended to the op lines it
+    handed to the model (file <tag>.leanin, one line per op after the header)"""
+    tag = name.replace("/", "_").replace(":", "_") + "_" + variant.replace("+", "_").replace(":", "_")
+    fn = os.path.join(ctx.scr.dir, tag + ".leanin")
+    if not os.path.exists(fn):
+        return None
+    lines = open(fn).read().split("\n")[1:]
+    if len(lines) < len(ops):
+        return None
+    out = []
+    for op, ln in zip(ops, lines):
+        if not ln.startswith(op):
+            return None
+        toks = ln[len(op):].split()
+        out.append((toks[1], toks[2]) if len(toks) >= 3 and toks[0] == "@" else None)
+    return out
+
+
+def cli_main_compare(ctx, exe, env, runs):
+    """the whole tool against Eav/CliMain.lean: exit code, every byte of stdout and the pass/fail counters on stderr of the real binary run
+    on each argument list of `runs` (bytes, or None for a path that does not exist) = the model's, given what the IDN library answers for
+    each validated line"""
+    done = []
+    for ri, files in enumerate(runs):
+        paths = []
+        for k, f in enumerate(files):
+            fn = os.path.join(ctx.scr.dir, "clim_%d.txt" % k)
+            if f is None:
+                fn += ".missing"
+                if os.path.exists(fn): os.remove(fn)
+            else:
+                open(fn, "wb").write(f)
+            paths.append(fn)
+        p = vlib.run_timed([exe] + paths, 180, env=env)
+        op = "cli-main " + " ".join("~" if f is None else (hx(f) if len(f) < 300 else hx(f[:150]) + "...(%d bytes)" % len(f)) for f in files)
+        ctx.evals += 1
+        if p.timed_out or p.returncode != 0:
+            ctx.S("the eav tool does not terminate normally (%s)" % ("killed after 180 s" if p.timed_out else "exit %d" % p.returncode), op=op,
+                  stderr=(p.stderr or b"").decode(errors="replace")[-700:])
+            continue
+        done.append((files, op, p.stdout, p.stderr))
+    # the lines the model validates, and what the IDN library answers for each of them (one stream for all runs)
+    allfiles = list(dict.fromkeys(f for files, _, _, _ in done for f in files if f is not None))
+    trims = dict(zip(allfiles, ctx.spec(["Ft %s" % hx(f) for f in allfiles])))
+    lines_of = {f: ([bytes.fromhex(x) if x != "-" else b"" for x in tl.split(" ")[1:]] if tl.strip() != "Ft" else []) for f, tl in trims.items()}
+    lines = list(dict.fromkeys(l for f in allfiles for l in lines_of[f]))
+    vops = ["P 6531 1 760 %s" % hx(l) for l in lines]
+    if vops:
+        ctx.K("cli-conv", "default", vops, nontrivial=lambda op, ln: False)
+    convs = recorded_convs(ctx, "cli-conv", "default", vops) if vops else []
+    if convs is None:
+        return                                   # the library faulted on one of the lines: reported by the stream itself
+    conv_of = dict(zip(lines, convs))
+    fms = []
+    for files, op, so, se in done:
+        ls = list(dict.fromkeys(l for f in files if f is not None for l in lines_of[f]))
+        fms.append("Fm " + " ".join("~" if f is None else hx(f) for f in files) + "".join(" | %s %s %s" % (hx(l), conv_of[l][0], conv_of[l][1]) for l in ls if conv_of.get(l)))
+    results = ctx.spec(fms)
+    st = ctx.streams.setdefault("cli-main@x:cli", dict(ops=0, k_mismatch=0))
+    for (files, op, so, se), res in zip(done, results):
+        st["ops"] += 1
+        def mismatch(impl, model):
+            st["k_mismatch"] += 1
+            if len(ctx.k_fail) < 20:
+                ctx.k_fail.append(dict(stream="cli-main", variant="x:cli", op=op, impl=impl[:400], model=model[:400]))
+        parts = res.split(" ; ")
+        head = parts[0].split(" ")
+        if len(head) < 3 or head[1] != "0" or head[2] != "1":
+            mismatch("exit 0", res[:200]); continue
+        model_out = b""
+        model_counts = []
+        for blk in parts[1:]:
+            h, np_, nf = blk.split(" ")
+            model_out += bytes.fromhex(h) if h != "-" else b""
+            model_counts.append((int(np_), int(nf)))
+        model_out = re.sub(rb"<<idn:(-?\d+)>>", lambda m: idn2_strerror(int(m.group(1))).encode(), model_out)
+        if model_out != so:
+            k = next((i for i, (a_, b_) in enumerate(zip(model_out, so)) if a_ != b_), min(len(model_out), len(so)))
+            mismatch("stdout differs at byte %d: %r" % (k, so[max(0, k - 40):k + 60]), "%r" % model_out[max(0, k - 40):k + 60]); continue
+        # stderr: one `<path>: pass = P fail = F` per readable file, last argument first
+        got = [(int(a_), int(b_)) for a_, b_ in re.findall(rb": pass = (\d+) fail = (\d+)", se)]
+        want = [c for c, f in zip(model_counts, reversed(files)) if f is not None]
+        if got != want:
+            mismatch("counters %r" % (got,), "counters %r" % (want,)); continue
+        ctx.nontrivial.add("main:" + hashlib.sha1(b"\0".join(f if f is not None else b"~" for f in files)).hexdigest()[:16])
+
+
 def c20(ctx):
     rng = ctx.rng
     errs = errors_table()
@@ -2389,6 +2480,17 @@ def c20(ctx):
             ctx.S("the tool prints more than one verdict per non-comment line", op=op, extra=repr(out[k:k + 3]))
         if len(ctx.samples) < 10 and rng.random() < 0.05:
             ctx.samples.append(dict(file=repr(f[:120]), stdout=repr(p.stdout[:200])))
+    # the whole tool against its model (main + parse_file on top of the API model): every file alone, files with NUL bytes, several files in one
+    # run (processed from the last argument to the first, one eav_t for all of them), unreadable paths in between
+    nul_files = [b"a@b.com\x00junk\n", b"\x00\n", b"#\x00\nx@y.org\n", b"a\x00@b.com\r\n", b" \x00a@b.com\n", b"a@b.com \x00 \n", b"\x00", b"a@b.com\n\x00#c\n", b"\r\x00\r\n"]
+    small = [f for f in files if len(f) < 3000]
+    step = 3 if ctx.tier == "quick" else 1
+    runs = [[f] for f in small[::step]] + [[f] for f in nul_files] + [[f] for f in files if len(f) >= 3000][:: (4 if ctx.tier == "quick" else 1)]
+    for _ in range(25 if ctx.tier == "quick" else 150):
+        k = rng.randint(2, 4)
+        runs.append([None if rng.random() < 0.15 else rng.choice(small + nul_files) for _ in range(k)])
+    runs += [[None], [None, b"a@b.com\n"], [b"a@b.com\n", None], [b"", b""], [b"x@y.org", b"a@b.com\n", b"x@y.org"]]
+    cli_main_compare(ctx, exe, env, runs)
     # one verdict per line means the line's OWN verdict: the same line alone in a file gets the same PASS/FAIL as after any other line
     groups = [[b"a@x.com", b"a@x.co", b"a@x.c", b"a@x.comm"], [b"a@x.museum", b"a@x.muse", b"a@x.m"], [b"a@x.info", b"a@x.inf", b"a@x.i"], [b"a@b.org", b"a@b.or", b"a@b.o"],
               ["ж@почта.рф".encode(), "ж@почта.р".encode()], [b"a@x.xn--p1ai", b"a@x.xn--p1a", b"a@x.xn"], [b"a@x.active", b"a@x.ac", b"a@x.act", b"a@x.a"],
